@@ -10,6 +10,7 @@ import (
 	"crypto/x509"
 	"fmt"
 	"io"
+	"net"
 	"strings"
 	"sync"
 	"time"
@@ -254,4 +255,15 @@ func (c *HandshakeConfig) GetClientCertificate(cri *CertificateRequestInfo) (*tl
 	}
 
 	return new(tls.Certificate), nil
+}
+
+// SNIName returns the name to announce in the server_name extension. An IP
+// address literal is never sent as SNI (RFC 6066 Section 3); ServerName itself
+// stays untouched because the server's certificate is still verified against it.
+func (c *HandshakeConfig) SNIName() string {
+	if net.ParseIP(c.ServerName) != nil {
+		return ""
+	}
+
+	return c.ServerName
 }
